@@ -72,8 +72,9 @@ def unkw(n):
 
 class OFn(TD.DFn):
     def __init__(self, qualname, leanname, params, ret, self_type=None, self_attrs=None, state=None, ctor=False,
-                 locals=None, ignore=(), extern=False):
+                 locals=None, ignore=(), extern=False, closure=None):
         TD.DFn.__init__(self, qualname, leanname, params, ret, self_type)
+        self.closure = closure                     # free variable bound by the enclosing decorator: the wrapped method
         self.extern = extern                       # translated elsewhere (Generated/TzKernels.lean): only called here
         self.self_attrs = dict(self_attrs or {})   # read-only attributes passed as parameters self_<attr>
         self.state = list(state or [])             # mutable attributes: threaded through and returned
@@ -206,6 +207,12 @@ class OTr(TD.DTr):
     def call(self, e):
         f = e.func
         if isinstance(f, ast.Name):
+            if self.spec.closure and f.id == self.spec.closure and len(e.args) == 2 and isinstance(e.args[0], ast.Name) \
+                    and e.args[0].id == "self" and not e.keywords:         # the wrapped method: f(self, dt)
+                b, t, ty = self.expr(e.args[1])
+                if ty != "Dt": raise Untranslatable("wrapped method applied to %s" % ty)
+                n = self.fresh()
+                return b + [(n, "%s %s" % (f.id, t), self.spec.ret)], n, self.spec.ret
             if f.id == "len" and len(e.args) == 1:
                 b, t, ty = self.expr(e.args[0])
                 if ty == "CStr" or ty in ELEM: return b, "((%s).length : Int)" % t, "Int"
@@ -628,7 +635,8 @@ class OTr(TD.DTr):
         self.types = {k_: v for k_, v in self.types.items() if k_ not in dict(sp.params)}
         for n, t in pnames: self.types[n] = t
         for a, t in sp.self_attrs.items(): self.types["self_" + a] = t
-        params = (["(self : %s)" % sp.self_type] if sp.self_type else []) + \
+        params = (["(%s : DtPy.Dt → Py.R %s)" % (sp.closure, TB.lean_rty(sp.ret))] if sp.closure else []) + \
+            (["(self : %s)" % sp.self_type] if sp.self_type else []) + \
             ["(self_%s : %s)" % (a, TB.lean_ty(t)) for a, t in sp.self_attrs.items()] + \
             ([] if sp.ctor else ["(self_%s : %s)" % (a, TB.lean_ty(t)) for a, t in sp.state]) + \
             ["(%s : %s)" % (n, TB.lean_ty(t)) for n, t in pnames]
@@ -697,6 +705,10 @@ OBJ_GROUPS[0][1].extend([
     OFn("tzlocal.dst", "tzlocal_dst", [("dt", "Dt")], "TD", L),
     OFn("tzlocal.tzname", "tzlocal_tzname", [("dt", "Dt")], "Str", L),
 ])
+OBJ_GROUPS.append(("tz/_common.py", [
+    # the decorator of every `fromutc`: its inner function, with the wrapped method `f` as a parameter
+    OFn("_validate_fromutc_inputs.fromutc", "validateFromutcInputs", [("dt", "Dt")], "Dt", closure="f"),
+]))
 # tzlocal reads its own attributes of the same zone record (additive to translate_dt's table for tzrangebase)
 TD.ATTRS[L].update({"_dst_saved": ("(DtPy.tdSeconds self.saving)", "TD"), "_hasdst": ("self.hasdst", "Bool"),
                     "_tznames": ("[self.stdAbbr, self.dstAbbr]", "StrList")})
